@@ -276,12 +276,21 @@ impl Prop for C08Prop {
         v.extend(crate::props::wf::wf_streams(tier, 1));
         // programs with verbatim regions and asm bodies (C07's generator), judged by this oracle
         v.push(Stream::random("toggled", if q { 500 } else { 6000 }, 700));
+        // statements with multi-line string literals (C12's shapes): the re-indent / re-wrap rounds
+        v.push(Stream::random("lits", if q { 3000 } else { 30000 }, 300));
         v
     }
     fn generate(&self, stream: &str, t: &mut Tape) -> Option<Case> {
         let stream = stream.trim_end_matches("_chk");
         match stream {
             "toggled" => crate::props::c07::C07.generate("prog", t),
+            "lits" => {
+                let mut c = crate::props::c12::C12.generate("lits", t)?;
+                if t.chance(1, 2) {
+                    c.cfg.wrap_column = *t.pick(&[30, 40, 45, 50, 60, 25, 35, 42, 44, 20]);
+                }
+                Some(c)
+            }
             "any" => {
                 let cfg = Cfg::gen_unsaturated(t);
                 let (input, g) = common::gen_any_input(t, 80);
